@@ -146,6 +146,16 @@ class Ctx:
         """Build `module` (a Props module) against freshly regenerated Gen sources, audit the source
         for forbidden constructs, and #print axioms of every required theorem.  Fills
         self.obligations; returns list of broken obligation names."""
+        # bridge obligations of this property: regenerated C functions (Gen/CFuncs) = hand-written models
+        try:
+            from checks.bridges import REQUIRED_BRIDGES, BRIDGE_MODULE
+            extra = [t for t in REQUIRED_BRIDGES.get(self.pid, []) if t not in required]
+            if extra:
+                required = list(required) + extra
+                if BRIDGE_MODULE not in extra_modules:
+                    extra_modules = tuple(extra_modules) + (BRIDGE_MODULE,)
+        except ImportError:
+            pass
         lock = self.lean_lock()
         try:
             ok, out = self.lean_generate()
